@@ -4,7 +4,7 @@ CONSTANTS
   MaxLen = 6
   MaxLenB = 4
   MaxLenFam = 5
-  TopCombos = 8
+  TopCombos = 4
   Level = 2
   SimMinLen = 1
   SimMaxLen = 0
